@@ -90,7 +90,13 @@ package mempool
 // Structural pool invariants needed by removal and insertion.
 //@ spec wfItems(mp *Pool) bool = forall(j, 0, len(mp.verifiedTxes), mp.verifiedTxes[j].txn != nil && wfTx(mp.verifiedTxes[j].txn) && transaction.wfAttrs(mp.verifiedTxes[j].txn))
 //@ spec wfCount(mp *Pool) bool = forallkeys(mp.verifiedMap, k, has(mp.verifiedMap, k) ==> exists(j, 0, len(mp.verifiedTxes), transaction.txHash(mp.verifiedTxes[j].txn) == k))
-//@ spec wfOracle(mp *Pool) bool = forallkeys(mp.oracleResp, id, has(mp.oracleResp, id) ==> has(mp.verifiedMap, mp.oracleResp[id]))
+// The oracle index names, for a request id, the pooled transaction that answers it: that
+// transaction is in the pool and its (first) OracleResponse attribute carries the id.
+//@ spec oidx(tx *transaction.Transaction) int = transaction.firstIdx(tx, transaction.OracleResponseT, len(tx.Attributes))
+//@ spec oracleOf(tx *transaction.Transaction) int = ite(oidx(tx) >= 0, tx.Attributes[oidx(tx)].Value.(*transaction.OracleResponse).ID, -1)
+//@ spec wfOracle(mp *Pool) bool = forallkeys(mp.oracleResp, id, has(mp.oracleResp, id) ==> has(mp.verifiedMap, mp.oracleResp[id]) && oracleOf(mp.verifiedMap[mp.oracleResp[id]]) == id)
+//@ spec wfSame(mp *Pool) bool = forall(j, 0, len(mp.verifiedTxes), has(mp.verifiedMap, transaction.txHash(mp.verifiedTxes[j].txn)) && mp.verifiedMap[transaction.txHash(mp.verifiedTxes[j].txn)] == mp.verifiedTxes[j].txn)
+//@ spec noDup(mp *Pool) bool = forall(a, 0, len(mp.verifiedTxes), forall(b, 0, len(mp.verifiedTxes), a != b ==> transaction.txHash(mp.verifiedTxes[a].txn) != transaction.txHash(mp.verifiedTxes[b].txn)))
 //@ spec mapsOK(mp *Pool) bool = mp != nil && mp.fees != nil && mp.verifiedMap != nil && mp.conflicts != nil && mp.oracleResp != nil
 
 //@ func (*Pool).containsKey
@@ -104,8 +110,14 @@ package mempool
 //@ requires mapsOK(mp) && itm.txn != nil && wfTx(itm.txn) && transaction.wfAttrs(itm.txn)
 //@ modifies mp.verifiedMap, mp.fees, mp.conflicts, mp.oracleResp, elems(util.Uint256)
 //@ ensures[maplen] len(mp.verifiedMap) == old(len(mp.verifiedMap)) - ite(old(has(mp.verifiedMap, transaction.txHash(itm.txn))), 1, 0)
+// The oracle index stays exact when an entry leaves the pool (given that the pool holds this very
+// transaction object under its hash): stated as an implication so that callers owe nothing.
+//@ ensures[oracle] old(wfOracle(mp) && (has(mp.verifiedMap, transaction.txHash(itm.txn)) ==> mp.verifiedMap[transaction.txHash(itm.txn)] == itm.txn)) ==> wfOracle(mp)
+//@ ensures[removed] !has(mp.verifiedMap, transaction.txHash(itm.txn))
+//@ ensures[others] forallkeys(mp.verifiedMap, h, h != transaction.txHash(itm.txn) ==> has(mp.verifiedMap, h) == old(has(mp.verifiedMap, h)) && mp.verifiedMap[h] == old(mp.verifiedMap[h]))
 
 //@ func (*Pool).removeInternal
+//@ opt merge off
 //@ requires mapsOK(mp) && wfItems(mp) && wfCount(mp)
 //@ modifies mp.verifiedTxes, elems(item), mp.verifiedMap, mp.fees, mp.conflicts, mp.oracleResp, elems(util.Uint256)
 //@ ensures[absent] !old(has(mp.verifiedMap, hash)) ==> unchanged(mp.verifiedTxes) && unchanged(mp.verifiedMap) && unchanged(mp.conflicts) && unchanged(mp.oracleResp) && unchanged(mp.fees)
@@ -113,11 +125,19 @@ package mempool
 //@ ensures[len] len(mp.verifiedTxes) <= old(len(mp.verifiedTxes))
 //@ ensures[items] wfItems(mp)
 //@ ensures[count!] wfCount(mp)
+//@ call removeFromMapWithFeesAndAttrs requires[shift] len(mp.verifiedTxes) == old(len(mp.verifiedTxes)) - 1 && 0 <= num && num <= len(mp.verifiedTxes) && forall(j, 0, len(mp.verifiedTxes), mp.verifiedTxes[j].txn == old(mp.verifiedTxes[ite(j < num, j, j+1)].txn))
+// Removal keeps the list and the map in step (one list entry per map key, the same transaction
+// object in both, no hash listed twice) and the oracle index exact.
+//@ ensures[same] old(wfSame(mp) && noDup(mp)) ==> wfSame(mp)
+//@ ensures[nodup] old(noDup(mp)) ==> noDup(mp)
+//@ ensures[oracle] old(wfSame(mp) && noDup(mp) && wfOracle(mp)) ==> wfOracle(mp)
+//@ ensures[gone] old(wfSame(mp) && noDup(mp)) ==> !has(mp.verifiedMap, hash)
+//@ ensures[subset] forallkeys(mp.verifiedMap, k, has(mp.verifiedMap, k) ==> old(has(mp.verifiedMap, k)) && mp.verifiedMap[k] == old(mp.verifiedMap[k]))
 //@ loop 0 invariant (($i == 0 && num == 0) || num == $i - 1) && $i <= len(mp.verifiedTxes)
+//@ loop 0 invariant[miss] forall(j, 0, $i, transaction.txHash(mp.verifiedTxes[j].txn) != hash)
 
 //@ func (*Pool).Add
 //@ opt callbacks pure
-//@ opt tier thorough
 //@ requires (data == nil || len(data) >= 1) && mapsOK(mp) && fee != nil && wfTx(t) && transaction.wfAttrs(t) && wfPoolTx(mp) && wfConflicts(mp) && wfItems(mp) && wfCount(mp) && wfOracle(mp) && len(mp.verifiedTxes) <= mp.capacity
 //@ modifies mp.verifiedTxes, elems(item), mp.verifiedMap, mp.fees, mp.conflicts, mp.oracleResp, elems(util.Uint256)
 //@ ensures[atomic] result != nil ==> unchanged(mp.verifiedTxes) && unchanged(mp.verifiedMap) && unchanged(mp.conflicts) && unchanged(mp.oracleResp)
